@@ -265,8 +265,10 @@ where
         L::zero().emplace(&mut *data)?;
 
         let mut result = Ok(());
+        // Set when the offset of the previous item cannot be stored: such an item may only be the last one.
+        let mut unsealable = false;
         for item_emplacer in self.iter {
-            if data.len() < offset_size {
+            if unsealable || data.len() < offset_size {
                 result = Err(Error {
                     kind: ErrorKind::InsufficientSize,
                     pos,
@@ -274,23 +276,20 @@ where
                 break;
             }
             let (offset_slot, payload) = data.split_at_mut(offset_size);
-            let (offset, stored_offset) = match item_emplacer.emplace(payload).and_then(|item| {
-                let offset = offset_size + ceil_mul(item.size(), FlexVec::<T, L>::ALIGN);
-                L::from_usize(offset)
-                    .and_then(|o| if o < L::max_value() { Some(o) } else { None })
-                    .map(|o| (offset, o))
-                    .ok_or(Error {
-                        kind: ErrorKind::InsufficientSize,
-                        pos,
-                    })
-            }) {
-                Ok(offsets) => offsets,
+            let offset = match item_emplacer.emplace(payload) {
+                Ok(item) => offset_size + ceil_mul(item.size(), FlexVec::<T, L>::ALIGN),
                 Err(e) => {
                     result = Err(e);
                     break;
                 }
             };
-            stored_offset.emplace(offset_slot)?;
+            // The last item is marked with `L::MAX` instead of its offset, so only a following item needs it.
+            match L::from_usize(offset).and_then(|o| if o < L::max_value() { Some(o) } else { None }) {
+                Some(stored_offset) => {
+                    stored_offset.emplace(&mut *offset_slot)?;
+                }
+                None => unsealable = true,
+            }
             last_offset_slot = Some(offset_slot);
 
             data = payload.split_at_mut(offset - offset_size).1;
